@@ -205,6 +205,10 @@ def run(ctx, rep) -> None:
                         if raises and isinstance(raises[0].exc, ast.Call) and ast.unparse(raises[0].exc.func) == "PreconditionerValueError" and ast.unparse(k.args[0] if k.args else k.func.value) == "factor_matrix":
                             found[key] = True
     rep.ob("C13.2", "factor-check:nan-and-inf-raise", all(found.values()), chkf.loc(), f"factor check raises PreconditionerValueError on NaN ({found['isnan']}) and on Inf ({found['isinf']})", sample=True)
+    ccfg = CFG(chkf.node)
+    scans = [t for t in ccfg.nodes if t.kind == "test" and ("isnan" in ast.unparse(t.ast.test) or "isinf" in ast.unparse(t.ast.test))]
+    every = len(scans) >= 2 and all(ccfg.all_paths_pass(ccfg.entry, [ccfg.exit], lambda x, t=t: x is t) for t in scans)
+    rep.ob("C13.2", "factor-check:scans-on-every-path", every, chkf.loc(), "every path through the factor check evaluates both the NaN and the Inf scan before returning (an early return, e.g. for still-diagonal factors, would let a non-finite factor through the diagonal fast path)", sample=True)
     # refresh precedes the parameter update of the group
     impl = repo.method(DS, "_per_group_step_impl")
     icfg = CFG(impl.node)
@@ -213,8 +217,8 @@ def run(ctx, rep) -> None:
     reach_am = any(q.endswith("._amortized_computation") for q in pts.reachable_funcs([f"{DS}._update_preconditioners"]))
     ok = len(upd) == 1 and len(app) == 1 and reach_am and icfg.dominates(icfg.node_of(upd[0]), icfg.node_of(app[0]))
     rep.ob("C13.2", "refresh-precedes-parameter-update", ok, impl.loc(), "the call that can raise PreconditionerValueError dominates update_params in the group step (no parameter of the group is modified first)", sample=True)
-    _counter_transition(ctx, rep)
-    _write_through(ctx, rep)
+    rep.attempt("_counter_transition", _counter_transition, ctx, rep)
+    rep.attempt("_write_through", _write_through, ctx, rep)
     rep.assume("torch semantics of isnan / isinf / copy_ (copy_ casts to the destination dtype)")
 
 
